@@ -22,7 +22,7 @@ TARGETS = ('x86_64-sysv', 'aarch64', 'riscv64')
 def run(exe, args, data=None, env=None, cwd=None, argv0=None, timeout=60):
     cmd = [exe] + args
     try:
-        p = subprocess.run(cmd, input=data, stdout=subprocess.PIPE, stderr=subprocess.PIPE, env=env, cwd=cwd, timeout=timeout)
+        p = subprocess.run(cmd, input=data, stdout=subprocess.PIPE, stderr=subprocess.PIPE, env=env, cwd=cwd, timeout=timeout, preexec_fn=fs.child_limits(30))
     except subprocess.TimeoutExpired:
         return ('timeout', b'', b'')
     return (p.returncode, p.stdout, p.stderr)
